@@ -66,8 +66,11 @@ def report_findings(ctx, det):
     """Every minimised nondeterminism finding is a concrete failing input."""
     for f in det.get("findings", []):
         inp = f.get("input", {})
-        what = ("the %s of the same (source, settings) differs between two histories (%s): %s"
-                % (f.get("component"), f.get("class"), f.get("note")))
+        if "rendered twice" in str(f.get("component")):
+            what = "%s differs (%s): %s" % (f.get("component"), f.get("class"), f.get("note"))
+        else:
+            what = ("the %s of the same (source, settings) differs between two histories (%s): %s"
+                    % (f.get("component"), f.get("class"), f.get("note")))
         ctx.violation(
             f["key"], what,
             case={"input": inp, "history_a": f.get("history_a"), "history_b": f.get("history_b"),
